@@ -31,7 +31,8 @@
 //!   q <C> <dir> <n,n,…>                                         queued packets per link of chain <C> (fwd / bwd)
 //!   fin res=ok|err|panic rem=<n> hm=<n> ex=<n> ub=<n> rs=<n> aw=<n>   finish(): remaining events by kind
 //!   obj <kind> <tag#k> c=<created> s=<dropped at stop> d=<dropped at the end>
-//!   sim2 <trace>                                                second simulation run in the same process afterwards
+//!   sim2 <trace> / sim3 <trace>                                 second and third simulation run in the same process afterwards:
+//!                                                               clock readings while the network is built (n, cx, kx, cy, ky, m), then the run
 use crate::rng::Rng;
 use crate::util::{cases, guarded, hval};
 use des::net::processing::{ProcessingElement, ProcessingStack};
@@ -551,24 +552,57 @@ fn simulate(sc: &Script, stop: &str, drop_order: &str, out: &mut Vec<String>) {
     }
 }
 
-// ---- the second simulation: x sends 1,2,3 to y (send_in 1,2,3 ns over a 1 ns-latency channel), y spawns a 5 ns sleeper on message 1
-struct X2;
+// ---- the second / third simulation.  Everything that reads the process-wide clock while the network is
+// built is logged (right after Sim::new, in the module constructors, in Module::stack, the creation time of a
+// Message::default()), x schedules a message relative to its build-time clock, sends 1,2,3 to y (send_in
+// 1,2,3 ns over a 1 ns-latency channel), y spawns a 5 ns sleeper on message 1.
+fn log2(s: String) {
+    reg(|r| r.log2.push(s));
+}
+struct X2 {
+    built: SimTime,
+}
+impl X2 {
+    fn new() -> Self {
+        let built = SimTime::now();
+        log2(format!("cx@{}", built.as_nanos()));
+        X2 { built }
+    }
+}
 impl Module for X2 {
+    fn stack(&self, stack: ProcessingStack) -> ProcessingStack {
+        log2(format!("kx@{}", SimTime::now().as_nanos()));
+        stack
+    }
     fn at_sim_start(&mut self, _: usize) {
+        schedule_at(Message::default().id(9), self.built + Duration::from_nanos(10));
         for i in 1..=3u16 {
             send_in(Message::default().id(i), "o", Duration::from_nanos(i as u64));
         }
     }
+    fn handle_message(&mut self, msg: Message) {
+        log2(format!("x:{}@{}", msg.header().id, SimTime::now().as_nanos()));
+    }
 }
 struct Y2;
+impl Y2 {
+    fn new() -> Self {
+        log2(format!("cy@{}", SimTime::now().as_nanos()));
+        Y2
+    }
+}
 impl Module for Y2 {
+    fn stack(&self, stack: ProcessingStack) -> ProcessingStack {
+        log2(format!("ky@{}", SimTime::now().as_nanos()));
+        stack
+    }
     fn handle_message(&mut self, msg: Message) {
         let id = msg.header().id;
-        reg(|r| r.log2.push(format!("y:{}@{}", id, SimTime::now().as_nanos())));
+        log2(format!("y:{}@{}", id, SimTime::now().as_nanos()));
         if id == 1 {
             tokio::spawn(async move {
                 des::time::sleep(Duration::from_nanos(5)).await;
-                reg(|r| r.log2.push(format!("t@{}", SimTime::now().as_nanos())));
+                log2(format!("t@{}", SimTime::now().as_nanos()));
             });
         }
     }
@@ -578,8 +612,10 @@ fn second_sim() -> String {
     reg(|r| r.log2.clear());
     let res = guarded(|| {
         let mut sim = Sim::new(());
-        sim.node("x", X2);
-        sim.node("y", Y2);
+        log2(format!("n@{}", SimTime::now().as_nanos()));
+        sim.node("x", X2::new());
+        sim.node("y", Y2::new());
+        log2(format!("m@{}", Message::default().header().creation_time.as_nanos()));
         let o = sim.gate("x", "o");
         let i = sim.gate("y", "i");
         o.connect(i, Some(Channel::new(ChannelMetrics::new(0, Duration::from_nanos(1), Duration::ZERO, ChannelDropBehaviour::Drop))));
@@ -602,7 +638,7 @@ pub fn exec(input: &str) -> String {
         writeln!(out, "{header}").unwrap();
         let body: Vec<String> = body
             .into_iter()
-            .filter(|l| !["stop ", "q ", "fin ", "obj ", "sim2 "].iter().any(|p| l.starts_with(p)))
+            .filter(|l| !["stop ", "q ", "fin ", "obj ", "sim2 ", "sim3 "].iter().any(|p| l.starts_with(p)))
             .collect();
         for l in &body {
             writeln!(out, "{l}").unwrap();
@@ -627,6 +663,7 @@ pub fn exec(input: &str) -> String {
             writeln!(out, "{l}").unwrap();
         }
         writeln!(out, "sim2 {}", second_sim()).unwrap();
+        writeln!(out, "sim3 {}", second_sim()).unwrap();
         writeln!(out, "end").unwrap();
     }
     out
